@@ -202,6 +202,21 @@ void Engine::exec_op(const J &op, int task, int idx) {
 	apis++;
 	if (k == "sleep") { sim::sleep_us((uint64_t) op.geti("us", op.geti("ms", 1) * 1000)); return; }
 	if (k == "quiesce") { flush_and_quiesce(op.getb("flush", true)); return; }
+	if (k == "drain") {
+		// read a queue until it is empty (bounded)
+		J rd = J::obj(); rd.set("op", op.gets("q", "read"));
+		drain_ops.push_back(rd);
+		const J &ro = drain_ops.back();
+		for (int i = 0; i < 400; i++) { size_t n = oplog.size(); exec_op(ro, task, idx); if (oplog.size() == n || oplog.back().ret == 0) break; }
+		return;
+	}
+	if (k == "loopback") {
+		// feed the library's own downlink bytes (since the last loopback) back into its receiver
+		std::vector<uint8_t> b(bus.wire_raw.begin() + (long) loop_pos, bus.wire_raw.end());
+		loop_pos = bus.wire_raw.size();
+		if (!b.empty()) bus.emit_raw(b, 0, (uint64_t) op.geti("gap_us", 0), op.geti("split_at", -1), (uint64_t) op.geti("split_gap_us", 0), 77);
+		return;
+	}
 	if (k == "emit") {
 		const J &e = op;
 		std::vector<bus::Fault> fs;
